@@ -30,9 +30,11 @@ MAX_TERMS = 60000
 
 
 class Ctx(object):
-    def __init__(self, max_terms=MAX_TERMS):
+    def __init__(self, max_terms=MAX_TERMS, seconds=None):
         self.atoms = {}      # key string -> structure
         self.max_terms = max_terms
+        import time
+        self.deadline = (time.time() + seconds) if seconds else None
 
     # -- atoms ---------------------------------------------------------------
     def name_of(self, struct):
@@ -57,6 +59,10 @@ class Ctx(object):
     def check(self, p):
         if len(p.t) > self.max_terms:
             raise Budget('polynomial with %d terms' % len(p.t))
+        if self.deadline is not None:
+            import time
+            if time.time() > self.deadline:
+                raise Budget('time budget exhausted')
         return p
 
     # -- normalisation -------------------------------------------------------
@@ -282,6 +288,8 @@ class Evaluator(object):
                 return c.fn(short, args)
             if short == 'float' and len(args) == 1:
                 return args[0]
+            if nm in self.helpers and isinstance(self.helpers[nm], ast.FunctionDef):
+                return self.inline(self.helpers[nm], args)
             return c.fn(nm, args)
         if isinstance(e, ast.IfExp):
             return c.ite(self.cond(e.test), self.ev(e.body), self.ev(e.orelse))
@@ -336,8 +344,21 @@ class Evaluator(object):
         return self
 
     def block(self, stmts):
+        """returns True when every path through the block ends in a return"""
         for s in stmts:
-            self.stmt(s)
+            if self.stmt(s):
+                return True
+        return False
+
+    def result_of_returns(self, pick):
+        """sum over return sites of [path condition] * pick(value, env)"""
+        tot = Poly()
+        for live, val, env in self.returns:
+            v = pick(val, env)
+            if v is None:
+                raise Unsupported('a return site lacks the requested value')
+            tot = tot + self.ctx.mul(live, v)
+        return self.ctx.simplify(tot)
 
     def assign(self, target, val):
         if isinstance(target, ast.Name):
@@ -356,7 +377,9 @@ class Evaluator(object):
                 return
             if isinstance(s.value, ast.Call):
                 nm = ast.unparse(s.value.func).replace(' ', '')
-                if nm in self.helpers:
+                if nm in ('printf', 'print'):
+                    return
+                if nm in self.helpers and not isinstance(self.helpers[nm], ast.FunctionDef):
                     return self.helpers[nm](self, s.value)
                 raise Unsupported('call statement %s' % nm)
             return
@@ -393,13 +416,23 @@ class Evaluator(object):
             base = dict(self.env)
             live0 = self.live
             self.live = c.mul(live0, cnd)
-            self.block(s.body)
+            r1 = self.block(s.body)
             e1 = self.env
             self.env = dict(base)
             self.live = c.mul(live0, Poly.const(1) - cnd)
-            self.block(s.orelse)
+            r2 = self.block(s.orelse)
             e2 = self.env
             self.live = live0
+            if r1 and r2:
+                return True
+            if r1:
+                self.env = e2
+                self.live = c.mul(live0, Poly.const(1) - cnd)
+                return False
+            if r2:
+                self.env = e1
+                self.live = c.mul(live0, cnd)
+                return False
             merged = {}
             for k in set(e1) | set(e2):
                 a = e1.get(k)
@@ -431,14 +464,24 @@ class Evaluator(object):
             else:
                 val = self.ev(s.value)
             self.returns.append((self.live, val, dict(self.env)))
-            # paths after a return are dead: approximate by zeroing liveness for straight-line tails
-            self.live = Poly.const(0) if self.live.is_const() else self.live
-            return
+            return True
         if isinstance(s, ast.Pass):
             return
         if isinstance(s, ast.While):
             raise Unsupported('while loop')
         raise Unsupported('statement %s' % type(s).__name__)
+
+    def inline(self, fdef, args):
+        """value of a call of a small pure helper: its body is evaluated with the actual arguments"""
+        sub = Evaluator(self.ctx, fdef, helpers=self.helpers, unroll=self.unroll)
+        names = [a.arg for a in fdef.args.args]
+        for n, v in zip(names, args):
+            sub.env[n] = v
+        body = fdef.body
+        if body and isinstance(body[0], ast.Expr) and isinstance(body[0].value, ast.Constant):
+            body = body[1:]
+        sub.block(body)
+        return sub.result_of_returns(lambda val, env: val if not isinstance(val, tuple) else None)
 
     def default(self, key):
         """value of a name/element that one branch did not assign: its value on entry"""
